@@ -53,6 +53,8 @@ type recStore struct {
 	puts  []*bep44.Item
 	gets  int
 	dels  int
+	// ops is the ordered log of writes: a put's seq, or delMark for a delete
+	ops []int64
 	// hook is called (outside the lock) at the start of every operation; used
 	// by C13 to park store calls.
 	hook func(op string, t bep44.Target)
@@ -70,6 +72,7 @@ func (s *recStore) Put(i *bep44.Item) error {
 	}
 	s.mu.Lock()
 	s.puts = append(s.puts, i)
+	s.ops = append(s.ops, i.Seq)
 	s.mu.Unlock()
 	return s.inner.Put(i)
 }
@@ -93,9 +96,12 @@ func (s *recStore) Del(t bep44.Target) error {
 	}
 	s.mu.Lock()
 	s.dels++
+	s.ops = append(s.ops, delMark)
 	s.mu.Unlock()
 	return s.inner.Del(t)
 }
+const delMark = int64(-1 << 62)
+
 func (s *recStore) nputs() int { s.mu.Lock(); defer s.mu.Unlock(); return len(s.puts) }
 
 // ask sends one query to a real server and returns the datagrams it wrote to
